@@ -36,7 +36,7 @@ Definition operand (lab : label -> Z) (nxt : Z) (i : instr) : Z :=
   match i with
   | LDAM a => a | LDBM a => a | STAM a => a
   | LDAC v => v mod W | LDBC v => v mod W
-  | LDAI k => k | LDBI k => k | STAI k => k
+  | LDAI k => k mod W | LDBI k => k mod W | STAI k => k mod W       (* a negative offset is its 32-bit two's complement *)
   | LDAP l => (lab l - nxt) mod W | BR l => (lab l - nxt) mod W | BRZ l => (lab l - nxt) mod W | BRN l => (lab l - nxt) mod W
   | BRB => 0 | ADD => 1 | SUB => 2 | SVC => 3
   | LABEL _ => 0
@@ -270,6 +270,9 @@ Definition readable (i : instr) (a b : Z) : Prop :=
 Lemma next_pc s' nxt : pc s' = nxt - 1 -> 0 < nxt < W -> wrap (pc s' + 1) = nxt.
 Proof. intros -> H. unfold wrap. replace (nxt - 1 + 1) with nxt by lia. apply Z.mod_small. lia. Qed.
 
+Lemma wrap_mod_r a k : wrap (a + k mod W) = wrap (a + k).
+Proof. unfold wrap. apply Zplus_mod_idemp_r. Qed.
+
 (* the memory class must be closed under the instruction's own store (stores never hit code) *)
 Lemma exec_instr C lab m pos nxt i a b inp :
   straight i = true -> instr_at C lab pos nxt i -> C m -> readable i a b -> nxt < W ->
@@ -287,9 +290,9 @@ Proof.
   - rewrite (step_stam s' inp _ Hby Hr). rewrite Hw, Ha, Hb, Hm. reflexivity.
   - rewrite (step_ldac s' inp _ Hby). rewrite Hw, Hb, Hm. reflexivity.
   - rewrite (step_ldbc s' inp _ Hby). rewrite Hw, Ha, Hm. reflexivity.
-  - rewrite <- Ha in Hr. rewrite (step_ldai s' inp _ Hby Hr). rewrite Hw, Ha, Hb, Hm. reflexivity.
-  - rewrite <- Hb in Hr. rewrite (step_ldbi s' inp _ Hby Hr). rewrite Hw, Ha, Hb, Hm. reflexivity.
-  - rewrite <- Hb in Hr. rewrite (step_stai s' inp _ Hby Hr). rewrite Hw, Ha, Hb, Hm. reflexivity.
+  - rewrite <- Ha, <- wrap_mod_r in Hr. rewrite (step_ldai s' inp _ Hby Hr). rewrite wrap_mod_r, Hw, Ha, Hb, Hm. reflexivity.
+  - rewrite <- Hb, <- wrap_mod_r in Hr. rewrite (step_ldbi s' inp _ Hby Hr). rewrite wrap_mod_r, Hw, Ha, Hb, Hm. reflexivity.
+  - rewrite <- Hb, <- wrap_mod_r in Hr. rewrite (step_stai s' inp _ Hby Hr). rewrite wrap_mod_r, Hw, Ha, Hb, Hm. reflexivity.
   - rewrite (step_add s' inp Hby). rewrite Hw, Ha, Hb, Hm. reflexivity.
   - rewrite (step_sub s' inp Hby). rewrite Hw, Ha, Hb, Hm. reflexivity.
 Qed.
